@@ -5,7 +5,7 @@ use crate::{
     taiko::difficulty::DifficultyValues, Beatmap, Difficulty,
 };
 
-use super::difficulty::TaikoSkills;
+use super::{convert, difficulty::TaikoSkills};
 
 /// The result of calculating the strains on a osu!taiko map.
 ///
@@ -30,7 +30,11 @@ impl TaikoStrains {
 }
 
 pub fn strains(difficulty: &Difficulty, map: &Beatmap) -> Result<TaikoStrains, ConvertError> {
-    let map = map.convert_ref(GameMode::Taiko, difficulty.get_mods())?;
+    let mut map = map.convert_ref(GameMode::Taiko, difficulty.get_mods())?;
+
+    if let Some(seed) = difficulty.get_mods().random_seed() {
+        convert::apply_random_to_beatmap(map.to_mut(), seed);
+    }
 
     let great_hit_window = map
         .attributes()
